@@ -259,6 +259,13 @@ fn simplify(ev: &Ev, viol: &Violation) -> Vec<Ev> {
                 out.push(Ev::PskProbe { psk: psk.clone(), psk_id: B(vec![psk_id[0]]) });
             }
         }
+        Ev::RejectBurst { r, from, n } => {
+            for m in [n / 2, n.saturating_sub(1), n.saturating_sub(n / 16)] {
+                if m < *n && m > 0 {
+                    out.push(Ev::RejectBurst { r: *r, from: *from, n: m });
+                }
+            }
+        }
         Ev::On { w, t, inner } => {
             if *t != 0 {
                 out.push(Ev::On { w: *w, t: 0, inner: inner.clone() });
